@@ -27,7 +27,7 @@ type verifChan struct {
 	recvFail      error       // a nil record in `in` makes Recv fail with this error
 	sendFail      int         // fail the k-th Send (1-based); 0 = never
 	sends         int
-	afterClose    int // Sends after Close
+	afterClose    int           // Sends after Close
 	sendGate      chan struct{} // when set, every Send waits for it
 }
 
